@@ -182,6 +182,15 @@ where
     async fn listen(&mut self) -> io::Result<Option<Box<dyn http_codec::Stream>>> {
         loop {
             let wait_read = async {
+                // An incomplete request head stays in the state until more bytes arrive
+                if let State::WaitingRequest(x) = &mut self.state {
+                    if !x.buffer.is_empty() {
+                        if 0 == self.transport_stream.read_buf(&mut x.buffer).await? {
+                            return Ok(BytesMut::new());
+                        }
+                        return Ok(std::mem::take(&mut x.buffer));
+                    }
+                }
                 let mut buffer = self.state.take_buffer();
                 if buffer.is_empty() {
                     if matches!(self.state, State::RequestInProgress(_)) {
